@@ -18,6 +18,8 @@ var verifSamples = []verifKindSample{
 	{"T", func() any { return &T{} }, `{"swagger":"2.0","info":{"title":"t","version":"1"},"externalDocs":{"url":"https://e"},"schemes":["https"],"consumes":["application/json"],"produces":["application/json"],"host":"h","basePath":"/v1","paths":{"/a":{"get":{"responses":{"200":{"description":"d"}}}}},"definitions":{"D":{"type":"string"}},"parameters":{"P":{"name":"p","in":"query","type":"string"}},"responses":{"R":{"description":"d"}},"securityDefinitions":{"s":{"type":"basic"}},"security":[{"s":[]}],"tags":[{"name":"t"}],"x-ext":1}`, []string{"swagger", "info"}},
 	{"Operation", func() any { return &Operation{} }, `{"summary":"s","description":"d","deprecated":true,"externalDocs":{"url":"https://e"},"tags":["t"],"operationId":"op","parameters":[{"name":"p","in":"query","type":"string"}],"responses":{"200":{"description":"d"}},"consumes":["a/b"],"produces":["a/b"],"schemes":["https"],"security":[{"s":[]}],"x-ext":1}`, []string{"responses"}},
 	{"OperationOptOut", func() any { return &Operation{} }, `{"responses":{"200":{"description":"d"}},"security":[],"x-ext":1}`, []string{"responses"}},
+	{"SchemaZeros", func() any { return &Schema{} }, `{"type":"array","maxItems":0,"maxLength":0,"maxProperties":0,"minimum":0,"maximum":0,"default":0,"example":0,"enum":[0,false,""],"x-ext":0}`, nil},
+	{"ParameterZeros", func() any { return &Parameter{} }, `{"in":"query","name":"p","type":"array","maxItems":0,"maxLength":0,"minimum":0,"maximum":0,"default":0,"x-ext":0}`, []string{"in", "name"}},
 	{"Parameter", func() any { return &Parameter{} }, `{"in":"query","name":"p","description":"d","collectionFormat":"csv","type":"array","format":"f","pattern":"^a","allowEmptyValue":true,"required":true,"uniqueItems":true,"exclusiveMinimum":true,"exclusiveMaximum":true,"items":{"type":"string"},"enum":["a"],"multipleOf":2,"minimum":1,"maximum":3,"maxLength":2,"maxItems":2,"minLength":1,"minItems":1,"default":"a","x-ext":1}`, nil},
 	{"ParameterBody", func() any { return &Parameter{} }, `{"in":"body","name":"b","schema":{"$ref":"#/definitions/D"},"x-ext":1}`, nil},
 	{"Schema", func() any { return &Schema{} }, `{"allOf":[{"$ref":"#/definitions/D"}],"not":{"type":"boolean"},"type":"object","title":"t","format":"f","description":"d","enum":[1],"default":1,"example":1,"externalDocs":{"url":"https://e"},"uniqueItems":true,"exclusiveMinimum":true,"exclusiveMaximum":true,"readOnly":true,"allowEmptyValue":true,"deprecated":true,"xml":{"name":"n"},"minimum":1,"maximum":2,"multipleOf":1,"minLength":1,"maxLength":2,"pattern":"^a","minItems":1,"maxItems":2,"items":{"type":"string"},"required":["a"],"properties":{"a":{"type":"string"}},"minProperties":1,"maxProperties":2,"additionalProperties":{"type":"string"},"discriminator":"a","x-ext":1}`, nil},
